@@ -44,6 +44,11 @@ def build_cases(tier, seed):
         cs += [c for c in fam.prof_list(fam.weak_family(4), 2, (1, 2), fam.cands(4))][::3]
         cs += [c for c in fam.prof_list(fam.weak_family(4), 1, (1, F(1, 3)), fam.cands(4))]
         famtxt = "Prof(Weak(3),2,{1,2,1/3,3/2}) + Prof(Weak(3),3,{1}) + every 3rd of Prof(Weak(4),2,{1,2}) + Prof(Weak(4),1,{1,1/3})"
+    # the same ranking on two ballots whose weights add up to a denominator above 10**6 (exact sums when ballots are merged)
+    tiny = (F(1, 999983), F(1, 999979))
+    for r in W3[::3]:
+        for r2 in (W3[1], W3[7]):
+            cs.append((c3, ((r, tiny[0]), (r2, F(1, 10**6)), (r, tiny[1]))))
     _VECS = {}
     for n in (3, 4):
         _VECS[n] = (vectors(n, (0, 1, 2, 3)) + vectors(n, (F(0), F(1, 2), F(1, 3), F(1)))
